@@ -1,4 +1,5 @@
-CONSTANTS MaxLen = 5
+CONSTANTS
+  MaxSteps = 2
 SPECIFICATION Spec
-INVARIANT Inv
+INVARIANT Emit
 CHECK_DEADLOCK FALSE
